@@ -143,7 +143,23 @@ def _check_ph(a, b, c, rec, header, frame):
                           getattr(g, 'revision', None))),
                       {'t': 'ph', 'ver': [a, b, c]})
         return False
+    _PH_SEEN[0] += 1
+    if _PH_SEEN[0] % 97 == 0 or _PH_SEEN[0] < 40:
+        # decoded headers (and the constructed one) are kept by their owner:
+        # later headers must not change what they report
+        _RETAINED.add(g, lambda o: (o.major_version, o.minor_version,
+                                    o.revision, bytes(o.marshal())),
+                      'ProtocolHeader decoded from %d-%d-%d' % (a, b, c), rec,
+                      'earlier-protocol-header-changed')
+        _RETAINED.add(obj, lambda o: (o.major_version, o.minor_version,
+                                      o.revision, bytes(o.marshal())),
+                      'ProtocolHeader(%d, %d, %d)' % (a, b, c), rec,
+                      'earlier-protocol-header-changed')
     return True
+
+
+_PH_SEEN = [0]
+_RETAINED = common.Retained()
 
 
 def run_case(case, rec):
@@ -196,6 +212,10 @@ def run_case(case, rec):
                           % (n, len(m.value), ch2, ch), wit)
             return
         rec.count('bodies_ok')
+        if len(b) <= 4096 and rec.counters['bodies_ok'] % 7 == 0:
+            _RETAINED.add(g, lambda o: (bytes(o.value), len(o)),
+                          'ContentBody of %d bytes' % len(b), rec,
+                          'earlier-body-changed')
         rec.seen('body_lengths', len(b) if len(b) in LENS else 'other')
         if rec.counters['bodies_ok'] % 499 == 1:
             rec.sample({'body_len': len(b), 'channel': ch,
